@@ -27,7 +27,10 @@ def build_seed(path: str) -> None:
     import datashard as ds
 
     t = ds.create_table(path, schema=tables.std_schema())
-    t.append_records(tables.rows([1, 2]))
+    with t.new_transaction() as tx:          # ONE manifest naming two data files: a delete of one of them is a
+        tx.append_data(tables.rows([1]))     # partial delete that rewrites a manifest the readers' snapshot uses
+        tx.append_data(tables.rows([2]))
+        tx.commit()
     t.append_records(tables.rows([3, 4]))
 
 
